@@ -655,6 +655,15 @@ def general_module(ch, feat, nfuncs=8, host_funcs=0, with_trace=False, nglobals=
             else:
                 shared_sig = (ps, rs)
             info['static']['exotic_import_names'] = 1
+        elif h >= 1 and ch.below(5) == 0:
+            # the same field name and the same type as the previous import, from another import module: two different host functions
+            # (two C identifiers), each needing its own declaration
+            prev = m.imports[-1]
+            pps, prs = m.types[prev[3]]
+            mod, nm, ps, rs = ch.pick((b'aux', b'env2', b'wasi_unstable')), prev[1], list(pps), tuple(prs)
+            if (mod, nm) in used_names:
+                mod = mod + b'%d' % h
+            info['static']['same_field_other_module'] = 1
         used_names.add((mod, nm))
         m.imports.append((mod, nm, 'func', m.type_index(ps, rs)))
     for g in range(imported_globals):
